@@ -62,6 +62,10 @@ void vf_set_topology(const int* sockets, int nsockets);
 // crash) so that a finding names the component/configuration it is about
 void vf_tag(const char* tag);
 
+// logical clock: every clock_gettime()/gettimeofday() advances time by `ns`
+// (default 1000); lets a harness make timeouts always / never fire
+void vf_set_clock_step(uint64_t ns);
+
 // end this execution now with verdict PASS (skips runtime teardown)
 void vf_finish(void) __attribute__((noreturn));
 
